@@ -170,6 +170,19 @@ class C04(Prop):
                 raise Violation("C04.writer_rejected", "%s:%s:%s" % (how, outcome.split(":", 1)[-1],
                                                                   str(getattr(w, "last_error", ""))[:30]),
                                 "compose raised %s (%s)" % (outcome, getattr(w, "last_error", "")))
+            # Verilog knows an escaped identifier by what follows the backslash: the names "\\y/y" (as the reader keeps
+            # an escaped identifier) and "y/y" (as flatten joins instance "y" and net "y") are ONE identifier in the
+            # text. A definition holding both cannot be expressed in Verilog: nothing is claimed for it.
+            def vid(x):
+                return (x.name or "").lstrip("\\").rstrip(" ")
+            for lib in n.libraries:
+                for d in lib.definitions:
+                    for group in (list(d.cables), list(d.children)):
+                        ids_ = [vid(x) for x in group if x.name is not None]
+                        if len(ids_) != len(set(ids_)):
+                            w.count("probe.not_expressible_same_identifier_skipped")
+                            self.stop = True
+                            return
             self.before_form = normalise(extract(n))
             if any(m["conn"] for m in self.before_form["modules"].values()):
                 w.count("probe.netlist_with_connections")
